@@ -1,0 +1,11 @@
+//go:build verif
+
+package renderer
+
+// Verification hooks for property C33 (/verif, vector tile geometry codec): exported access to
+// the unexported zigzag pair of the tile encoder. Nothing here changes behaviour; the file is
+// only compiled with -tags verif.
+
+func VerifC33ZigzagEncode(value int) uint32 { return zigzagEncode(value) }
+
+func VerifC33ZigzagDecode(value uint32) int { return zigzagDecode(value) }
